@@ -477,10 +477,19 @@ impl ConvContext {
                     // the same way as an always_comb block.
                     for output in &x.outputs {
                         for dst in &output.dst {
-                            if let Some(slot) = self.variables.get_mut(&dst.id)
-                                && slot.driver == VarDriverKind::None
-                            {
-                                slot.driver = VarDriverKind::Comb(idx);
+                            if let Some(slot) = self.variables.get_mut(&dst.id) {
+                                match slot.driver {
+                                    VarDriverKind::None => {
+                                        slot.driver = VarDriverKind::Comb(idx);
+                                    }
+                                    // Another declaration (an `assign` or a sibling
+                                    // instance of a generate-for) drives other bits
+                                    // of the same variable.
+                                    VarDriverKind::Comb(prev) if prev != idx => {
+                                        slot.driver = VarDriverKind::CombMulti;
+                                    }
+                                    _ => {}
+                                }
                             }
                         }
                     }
@@ -731,7 +740,12 @@ impl ConvContext {
                         Some(s) => s.clone(),
                         None => continue,
                     };
-                    if slot.driver != VarDriverKind::Comb(decl_idx) {
+                    let is_driver = match slot.driver {
+                        VarDriverKind::Comb(d) => d == decl_idx,
+                        VarDriverKind::CombMulti => true,
+                        _ => false,
+                    };
+                    if !is_driver {
                         continue;
                     }
                     for (bit, &src) in nets.iter().take(slot.width).enumerate() {
